@@ -239,7 +239,15 @@ func bigImportDeviations(faults, cuts bool) (evals int, fails []string) {
 	if err != nil {
 		return 0, []string{"big import: cannot build the stream: " + err.Error()}
 	}
-	cfg := Cfg{Fast: false}
+	for _, cfg := range []Cfg{{Fast: false}, {Fast: true}} {
+		e, f := bigImportDeviationsCfg(bs, cfg, faults, cuts)
+		evals += e
+		fails = append(fails, f...)
+	}
+	return evals, fails
+}
+
+func bigImportDeviationsCfg(bs *bigStream, cfg Cfg, faults, cuts bool) (evals int, fails []string) {
 	// fault-free run with a call trace
 	st0 := vstore.New()
 	st0.TraceCalls = true
@@ -247,18 +255,51 @@ func bigImportDeviations(faults, cuts bool) (evals int, fails []string) {
 	if err := runImport(st0, cfg, bs.version, bs.nodes); err != nil {
 		return 0, []string{"big import fails without faults: " + err.Error()}
 	}
-	check := func(st *vstore.Store, committed bool, what string) {
-		evals++
-		if !committed {
-			if vis := visibleAfterImport(st); vis != "" {
-				fails = append(fails, fmt.Sprintf("%s: the import was not committed but a fresh instance sees: %s", what, vis))
-			}
-			return
-		}
+	// postState: "" if a fresh instance on st sees the complete imported version, else what is wrong
+	postState := func(st *vstore.Store) string {
 		t := iavl.NewMutableTree(st.Clone(), 0, true, iavl.NewNopLogger())
 		defer t.Close()
 		if lv, err := t.Load(); err != nil || lv != bs.version || string(t.Hash()) != string(bs.hash) {
-			fails = append(fails, fmt.Sprintf("%s: Commit reported success but a fresh instance loads version %d (err %v) with hash %x, expected %x", what, lv, err, t.Hash(), bs.hash))
+			return fmt.Sprintf("a fresh instance loads version %d (err %v) with hash %x, expected version %d with hash %x", lv, err, t.Hash(), bs.version, bs.hash)
+		}
+		// the root hash only vouches for the root record: the whole imported tree must be there
+		it, err := t.GetImmutable(bs.version)
+		if err != nil {
+			return fmt.Sprintf("GetImmutable(%d): %v", bs.version, err)
+		}
+		e, err := it.Export()
+		if err != nil {
+			return fmt.Sprintf("Export: %v", err)
+		}
+		var got []*iavl.ExportNode
+		if pv := safely("re-export", func() *Violation { got, err = drainExport(e, false); return nil }); pv != nil {
+			err = fmt.Errorf("%s", pv.Detail)
+		}
+		e.Close()
+		if err != nil || len(got) != len(bs.nodes) {
+			return fmt.Sprintf("the imported tree is incomplete: re-export delivers %d of %d nodes (error: %v)", len(got), len(bs.nodes), err)
+		}
+		for i := range got {
+			a, b := got[i], bs.nodes[i]
+			if string(a.Key) != string(b.Key) || string(a.Value) != string(b.Value) || a.Height != b.Height || a.Version != b.Version {
+				return fmt.Sprintf("node %d of the imported tree differs from the source", i)
+			}
+		}
+		return ""
+	}
+	check := func(st *vstore.Store, committed bool, what string) {
+		evals++
+		post := postState(st)
+		if committed {
+			if post != "" {
+				fails = append(fails, fmt.Sprintf("%s: Commit reported success but %s", what, post))
+			}
+			return
+		}
+		// the operation did not report success: the store must reopen to the state before (nothing visible)
+		// or to the complete state after the import
+		if vis := visibleAfterImport(st); vis != "" && post != "" {
+			fails = append(fails, fmt.Sprintf("%s: the import was not committed but a fresh instance sees: %s (and not the complete imported version either: %s)", what, vis, post))
 		}
 	}
 	if faults {
@@ -268,10 +309,10 @@ func bigImportDeviations(faults, cuts bool) (evals int, fails []string) {
 			st.FailKindNth = map[vstore.CallKind]int{vstore.CBatchWrite: i}
 			var ierr error
 			if pv := safely("big import", func() *Violation { ierr = runImport(st, cfg, bs.version, bs.nodes); return nil }); pv != nil {
-				fails = append(fails, fmt.Sprintf("import of %d nodes with its batch write #%d failing: %s", len(bs.nodes), i, pv.Detail))
+				fails = append(fails, fmt.Sprintf("import of %d nodes (fast index %v) with its batch write #%d failing: %s", len(bs.nodes), cfg.Fast, i, pv.Detail))
 				continue
 			}
-			check(st, ierr == nil, fmt.Sprintf("import of %d nodes with its batch write #%d failing (reported: %v)", len(bs.nodes), i, ierr))
+			check(st, ierr == nil, fmt.Sprintf("import of %d nodes (fast index %v) with its batch write #%d failing (reported: %v)", len(bs.nodes), cfg.Fast, i, ierr))
 		}
 	}
 	if cuts {
@@ -281,7 +322,7 @@ func bigImportDeviations(faults, cuts bool) (evals int, fails []string) {
 				img.Apply(wr)
 			}
 			// before the last physical write of Commit nothing may be visible
-			check(img, c == len(st0.Log), fmt.Sprintf("import of %d nodes interrupted after %d of %d physical writes", len(bs.nodes), c, len(st0.Log)))
+			check(img, c == len(st0.Log), fmt.Sprintf("import of %d nodes (fast index %v) interrupted after %d of %d physical writes", len(bs.nodes), cfg.Fast, c, len(st0.Log)))
 		}
 	}
 	return evals, fails
